@@ -145,13 +145,13 @@ Variable idna_dec idna_enc : bytes -> option bytes.
 Variable lower : bytes -> bytes.
 Variable helem : bytes -> ST.elres.
 Variable udigits : bytes -> option (option Z).
-Variable iv vq vu v7 vn : Variant.variant.
+Variable iv vq vu v7 vn vl : Variant.variant.
 Variable dscheme dhost : bytes.
 Variable dport : option N.
 
-Notation starget := (ST.server_target valid inet4 inet6 idna_dec idna_enc lower iv vq vu v7 vn dscheme dhost dport).
+Notation starget := (ST.server_target valid inet4 inet6 idna_dec idna_enc lower iv vq vu v7 vn vl dscheme dhost dport).
 Notation ahost := (ST.apply_host inet4 inet6 lower helem udigits).
-Notation rhead := (ST.request_head valid inet4 inet6 idna_dec idna_enc lower helem udigits iv vq vu v7 vn dscheme dhost dport).
+Notation rhead := (ST.request_head valid inet4 inet6 idna_dec idna_enc lower helem udigits iv vq vu v7 vn vl dscheme dhost dport).
 
 (* the start-line callee is Request.parse + the hooks of on_startline_complete as modelled ... *)
 Definition start_tied : Prop := forall line info, c_start C line = SlOk info ->
@@ -226,14 +226,14 @@ Qed.
 End Compose.
 
 (* the plugged record satisfies both ties, whatever record it is built from *)
-Lemma plug_tied cfgC valid inet4 inet6 idna_dec idna_enc lower helem udigits iv vq vu v7 vn dscheme dhost dport :
-  let P := plug cfgC valid inet4 inet6 idna_dec idna_enc lower helem udigits iv vq vu v7 vn dscheme dhost dport in
-  start_tied P valid inet4 inet6 idna_dec idna_enc lower iv vq vu v7 vn dscheme dhost dport /\
+Lemma plug_tied cfgC valid inet4 inet6 idna_dec idna_enc lower helem udigits iv vq vu v7 vn vl dscheme dhost dport :
+  let P := plug cfgC valid inet4 inet6 idna_dec idna_enc lower helem udigits iv vq vu v7 vn vl dscheme dhost dport in
+  start_tied P valid inet4 inet6 idna_dec idna_enc lower iv vq vu v7 vn vl dscheme dhost dport /\
   hdrs_tied P inet4 inet6 lower helem udigits.
 Proof.
   cbn zeta. split.
   - intros line info H. cbn [plug c_start] in H. unfold start_callee in H.
-    destruct (ST.server_target _ _ _ _ _ _ _ _ _ _ _ _ _ _ line) as [u m v| | | |] eqn:S; try discriminate.
+    destruct (ST.server_target _ _ _ _ _ _ _ _ _ _ _ _ _ _ _ line) as [u m v| | | |] eqn:S; try discriminate.
     injection H as <-. exists u, m, v. split; reflexivity.
   - intros p h H u. cbn [plug c_hdrs] in H. unfold hdrs_callee in H.
     destruct (ST.apply_host inet4 inet6 lower helem udigits false (hget K_HOST h) some_uri) as [u1| |] eqn:A; try discriminate.
@@ -249,20 +249,20 @@ Definition uri_ok (u : UriNorm.nuri) : Prop :=
 Theorem delivered_uri :
   forall (cfg : config) (C : callees)
          (valid : bytes -> bool) (inet4 inet6 idna_dec idna_enc : bytes -> option bytes) (lower : bytes -> bytes)
-         (helem : bytes -> ST.elres) (udigits : bytes -> option (option Z)) (iv vq vu v7 vn : Variant.variant)
+         (helem : bytes -> ST.elres) (udigits : bytes -> option (option Z)) (iv vq vu v7 vn vl : Variant.variant)
          (dscheme dhost : bytes) (dport : option N) (frags : list bytes),
-  start_tied C valid inet4 inet6 idna_dec idna_enc lower iv vq vu v7 vn dscheme dhost dport ->
+  start_tied C valid inet4 inet6 idna_dec idna_enc lower iv vq vu v7 vn vl dscheme dhost dport ->
   hdrs_tied C inet4 inet6 lower helem udigits ->
   ST.http_scheme dscheme = true ->
   match feed cfg C Server init frags with
   | (_, ms, _) =>
       Forall (fun m => exists h0 u mm v,
-                ST.request_head valid inet4 inet6 idna_dec idna_enc lower helem udigits iv vq vu v7 vn dscheme dhost dport
+                ST.request_head valid inet4 inet6 idna_dec idna_enc lower helem udigits iv vq vu v7 vn vl dscheme dhost dport
                                 (m_line m) (hget K_HOST h0) = ST.FDeliver u mm v /\ uri_ok u) ms
   end.
 Proof.
   intros until frags. intros T1 T2 D.
-  pose proof (feed_sanitised cfg C valid inet4 inet6 idna_dec idna_enc lower helem udigits iv vq vu v7 vn dscheme dhost dport frags T1 T2) as H.
+  pose proof (feed_sanitised cfg C valid inet4 inet6 idna_dec idna_enc lower helem udigits iv vq vu v7 vn vl dscheme dhost dport frags T1 T2) as H.
   destruct (feed cfg C Server init frags) as [[s ms] oe].
   eapply Forall_impl; [|exact H]. intros m (h0 & u & mm & v & R). exists h0, u, mm, v. split; [exact R|].
   unfold uri_ok. split; [eapply STP.final_path; exact R|]. split; [eapply STP.final_scheme; [exact D | exact R]|].
